@@ -9,7 +9,8 @@ import (
 // (positions included), calls in between do not change an earlier result, and
 // no call writes to package-level state (always-on global snapshot assertion of
 // the executor; verifGlobalsUnchanged makes it an explicit obligation here).
-var verifC18Others = []string{"SELECT 1", "SELECT (1", "a + b", "CREATE TABLE t (a INT64) PRIMARY KEY (a)", "'unclosed", "", "SELECT '\\u00e9' AS `c\\U0001F600`"}
+var verifC18Others = []string{"SELECT 1", "SELECT (1", "a + b", "CREATE TABLE t (a INT64) PRIMARY KEY (a)", "'unclosed", "", "SELECT '\\u00e9' AS `c\\U0001F600`",
+	"SELECT t.'x", "a.\x00", "SELECT 1; SELECT a. /*", "f(1).1a"}
 
 // literals with escapes: every escape kind is decoded at least once on some path
 func verifHarness_C18_lit(k, entry int) {
@@ -94,7 +95,13 @@ func verifC18xy(x string, entry int, y string, entry2 int) {
 			ast.Inspect(root, func(ast.Node) bool { return true })
 		}
 	}
+	// the statement splitter and the lexer, before and after the unrelated calls
+	s1 := verifSplitDigest(x)
 	_, _ = SplitRawStatements("g", y)
+	verifLexAll(y)
+	if verifSplitDigest(x) != s1 {
+		verifFail("C18/split-result-depends-on-earlier-call", "")
+	}
 	// the earlier result is unchanged (no shared mutable state)
 	r1again := verifSnapshot(n1, e1)
 	verifSameResult(r1, r1again, "earlier-result-changed-by-later-call")
@@ -111,4 +118,21 @@ func verifC18xy(x string, entry int, y string, entry2 int) {
 	// package-level state must be unchanged: asserted by the executor after every
 	// path (label global-state-modified, the discriminator names the variable)
 	verifReach("C18/ok")
+}
+
+// verifSplitDigest renders the result of SplitRawStatements (pieces or error position).
+func verifSplitDigest(x string) string {
+	ps, err := SplitRawStatements("f", x)
+	if err != nil {
+		d := "error"
+		if e, ok := err.(*Error); ok && e != nil && e.Position != nil {
+			d += ":" + verifItoa(int(e.Position.Pos))
+		}
+		return d
+	}
+	d := ""
+	for _, p := range ps {
+		d += verifItoa(int(p.Pos)) + "-" + verifItoa(int(p.End)) + ";"
+	}
+	return d
 }
